@@ -79,7 +79,11 @@ def compile_cases(res, envdesc, queries, prop, want="any"):
 # ---------------------------------------------------------------------------------------------
 # C03
 
-NONASCII_NAMES = ["é", "😀", "a😀b", "ß0", "_", "_1", "Ω", "\u0080", "\ud7ff", "\ue000", "\U0010ffff", "a_b", "A", "z9"]
+NONASCII_NAMES = ["é", "😀", "a😀b", "ß0", "_", "_1", "Ω", "\u0080", "\ud7ff", "\ue000", "\U0010ffff", "a_b", "A", "z9",
+                  # characters Python calls white space or digits/letters but RFC 9535 treats as ordinary name characters,
+                  # at the end, the start and the middle of a shorthand name
+                  "a\u00a0", "\u00a0", "x\u2028", "\u2029y", "\u3000", "\u0085", "a\u1680b", "\u2003", "\u202f_", "\u205f", "\ufeff",
+                  "e\u0301", "\u212b", "\uf900", "a\u0661", "\uff21", "\u00aa", "\u02b0"]
 NUMBER_SPELLINGS = ["0", "-0", "1", "-1", "10", "0.0", "-0.0", "0.5", "1.50", "1e0", "1E0", "1e+0", "1e-0", "1E+10", "0e0",
                     "-0e-0", "0E+3", "12.5e1", "12.5E-1", "9007199254740991", "-9007199254740991", "1e2", "100e-2", "0.1e1",
                     "1e-1", "2.5e+0", "-1.0E-2", "123456789", "0.000001", "1e22", "5e-324", "1.7976931348623157e308"]
@@ -343,8 +347,8 @@ def explore_c05(rng, tier, res, deep=False):
     per = 600 if tier == "thorough" else 230
     for _ in range(rounds):
         fns = random_registry(rng)
-        hi = rng.choice([2**53 - 1, 10, 3, 100])
-        lo = -hi if rng.random() < 0.7 else -rng.choice([1, 5, 2**53 - 1])
+        hi = rng.choice([2**53 - 1, 10, 3, 100, 2**53 - 1, 2**63 - 1, 10**18, 2**64, 10**30])
+        lo = -hi if rng.random() < 0.7 else -rng.choice([1, 5, 2**53 - 1, 2**63, 10**18])
         desc = dict(real.DEFAULT_ENVDESC)
         desc.update(fns=fns, minIdx=lo, maxIdx=hi)
         g = LooseGen(rng, [(a, b, c) for a, b, c, _ in fns], lo, hi)
@@ -446,6 +450,8 @@ def explore_c13(rng, tier, res, deep=False):
     qs.add("$" + "..a" * 341)
     qs.add("$[?" + ",?".join(["@"] * 340) + "]")
     qs.add("$[?length(" + "value(" * 100 + "@" + ")" * 100 + ")==1]")
+    # characters that mean something to str.format / % formatting, echoed in error messages
+    qs.update(["$.a{", "$.store.}", "$[{]", "$..{", "$[?@.a == 1 }]", '{"a": 1}', "$.a%", "$[%s]", "$.{0}", "$[?@.{a}]", "$.a{}", "$['a'}", "${", "$}", "$[?{}]", "$.%(a)s"])
     qs = sorted(q for q in qs if len(q) <= 1024)
     env = real.make_env(FULL_ENV)
     reals, out = compile_cases(res, FULL_ENV, qs, "C13")
@@ -581,6 +587,15 @@ def explore_c19(rng, tier, res, deep=False):
         else:
             q2 = q2 + rng.choice(["\n]", "\n x", "\n\n.", " \n"])
         qs.add(q2)
+    # every prefix of some valid queries (the error is then at or next to the end of the text: opening quotes, brackets,
+    # operators, escapes and names cut in the middle)
+    for _ in range(12 if tier != "thorough" else 150):
+        q = g.query()
+        if rng.random() < 0.5:
+            q = q.replace("[", "[\n", 1)
+        for j in range(1, len(q)):
+            qs.add(q[:j])
+    qs.update(["$['", '$["', "$[?@.a == '", '$[?@.a == "', "$[\n'", "$['a", "$['a\\", "$['\\u12", "$[?match(@.a, '", "$.a['b']['"])
     qs = sorted(qs)
     # the same literal / name / number texts compiled before at OTHER offsets (valid queries, long prefixes, other
     # lines), then rejected queries in which those texts sit where they are not allowed: a position reported for an
@@ -880,6 +895,12 @@ def literal_pool(rng, tier):
     for _ in range(400 if tier == "thorough" else 40):
         quad = "".join(rng.choice("0123456789abcdefABCDEF" * 3 + "gGxX+- _.:\uff11\u0661\u0967é") for _ in range(4))
         bodies.append("\\u" + quad)
+    # runs of escaped backslashes in front of an escaped quote of either kind, of a raw quote of the other kind, at the
+    # end of the literal and in its middle
+    for k in range(0, 5):
+        for tail in ("\\'", '\\"', "'", '"', "x", ""):
+            bodies.append("\\\\" * k + tail)
+            bodies.append("a" + "\\\\" * k + tail + "b")
     # boundary surrogate pairs and sampled interior pairs
     for _ in range(4000 if tier == "thorough" else 60):
         hi = rng.randint(0xD800, 0xDBFF)
@@ -971,6 +992,9 @@ for _base in ("a", "abc", "_", "A1", "z_9"):
     for _x in ("\n", "\r", "\t", " ", "\x0b", "\x0c", "\x1f", "\x7f", "\x85", "\xa0", "\u2028", "\u2029", "'", '"', "\\", "é", "\u0661", "\uff11"):
         C08_NAMES.append(_base + _x)
         C08_NAMES.append(_x + _base)
+
+
+C08_NAMES += ['a\\"b', '\\"', '\\\\"', "\\'", "\\\\'", 'a\\\\\\"', "\\\\", "\\\\\\'x", '"\\', "'\\", "e\u0301", "\u212b", "\uf900"]
 
 
 def explore_c08(rng, tier, res, deep=False):
